@@ -26,8 +26,8 @@ TIME_CAP = {'quick': 300, 'thorough': 3600}
 REQUIRED_CLASSES = ['element', 'element-proportion>1', 'substance', 'material-number-fraction', 'material-mass-fraction',
                     'mass-density-given', 'number-density-given', 'with-volume', 'without-volume', 'natural', 'most-abundant',
                     'unit:kg/m3', 'unit:kg/l', 'unit:m-3', 'unit:1/l', 'unit:l', 'unit:m3', 'dict-form', 'string-form',
-                    'reread-after-in-place-conversion']
-REQUIRED_MONITORS = ['mode_twin_tables', 'identity_checks', 'component_rows_checked', 'unit_twins_compared', 'inplace_conversion_rereads', 'table_hygiene_checks']
+                    'reread-after-in-place-conversion', 'composition-changed-by-add:existing', 'composition-changed-by-add:new']
+REQUIRED_MONITORS = ['mode_twin_tables', 'identity_checks', 'component_rows_checked', 'unit_twins_compared', 'inplace_conversion_rereads', 'add_after_construction_checks', 'table_hygiene_checks']
 ASSUMPTIONS = ['component masses m_i are those reported by data_components() / Element.component_mass (their correctness is C10)',
                'the gram value of 1 Da is the unit table magnitude; unit factors of the twins are exact SI relations of the model '
                '(1 kg/m3 = 1e-3 g/cm3, 1 l = 1e3 cm3, ...), checked once per worker against Quantity.value()',
@@ -218,6 +218,8 @@ def flat(o):
 
 
 def given_amounts(case):
+    if case.get('amount_override') is not None:
+        return dict(case['amount_override'])
     if case['kind'] == 'element':
         return {R.species_text(case['el']): float(case['prop'])}
     if case['kind'] == 'substance':
@@ -422,6 +424,33 @@ def _run_case(case, ctx):
             devs.append(dev('outputs-change-after-in-place-conversion-of(%s)' % '+'.join(a for a, _ in stage if getattr(obj, a, None) is not None),
                             dict(converted=done, differing=diff[:6], before=fo.get(d0), after=f3.get(d0))))
             break
+    # ---- the composition changed after construction with add(): an existing component topped up, or a new one; the given
+    #      density stays, everything derived from it follows the new formula unit
+    if case['kind'] in ('substance', 'material') and not mass_mode and not devs:
+        am0 = given_amounts(case)
+        k0 = list(am0)[len(fp) % len(am0)]
+        step = 1.0 if case['kind'] == 'substance' else 0.5
+        newkey = 'Xe' if case['kind'] == 'substance' else 'Ar'
+        what = 'existing' if (len(fp) % 3) else 'new'
+        if what == 'new' and (newkey in am0 or R.ident_data(T, ('Xe', None, 0) if case['kind'] == 'substance' else ('Ar', None, 0), natural) is None):
+            what = 'existing'
+        try:
+            obj2 = build(ctx, case, *base_units)
+            am1 = dict(am0)
+            if what == 'existing':
+                obj2.add(k0, step)
+                am1[k0] = am0[k0] + step
+            else:
+                obj2.add(newkey, step)
+                am1[newkey] = step
+            case2 = dict(case, amount_override=am1)
+            o4 = observe(obj2, case2)
+            classes.add('composition-changed-by-add:' + what)
+            mon['add_after_construction_checks'] = mon.get('add_after_construction_checks', 0) + 1
+            for mech, detail in check_identities(case2, o4, T, devs, mon):
+                devs.append(dev('after-add(%s-component):%s' % (what, mech), dict(detail, added=[k0 if what == 'existing' else newkey, step], components=am1)))
+        except Exception as e:
+            devs.append(dev('add-after-construction-raises:' + type(e).__name__, dict(exc=repr(e)[:300], components=am0, what=what)))
     # ---- unit twins
     for du, vu in case['units']:
         classes.add('unit:' + du)
